@@ -6,9 +6,25 @@ import re, json, glob, os, sys
 VERIF = os.path.dirname(os.path.dirname(os.path.abspath(__file__)))
 
 
+def parse(path):
+    rows = {}
+    for l in open(path):
+        m = re.match(r'^(C\d\d_\S+)\s+(\S+)\s+expect=(\S+)\s+(OK|BAD)\s+([\d.]+)s\s*(.*)$', l)
+        if m:
+            rows[m.group(1)] = m.groups()
+    return rows
+
+
 def main():
     rows = {}
-    for path in sys.argv[1:]:
+    args = sys.argv[1:]
+    extra = []          # --extra LABEL=logfile : the same campaign under another VERIF_SEED (only counted)
+    while "--extra" in args:
+        i = args.index("--extra"); extra.append(args[i + 1]); del args[i:i + 2]
+    seedlogs = []       # --seeds LABEL=logfile : output of sim/seedrun.py under a given VERIF_SEED
+    while "--seeds" in args:
+        i = args.index("--seeds"); seedlogs.append(args[i + 1]); del args[i:i + 2]
+    for path in args:
         for l in open(path):
             m = re.match(r'^(C\d\d_\S+)\s+(\S+)\s+expect=(\S+)\s+(OK|BAD)\s+([\d.]+)s\s*(.*)$', l)
             if m:
@@ -21,8 +37,8 @@ def main():
            "Measured with `python3 sim/sensitivity.py Cxx` (quick tier, default seed): every patch in `sim/mutants/` is applied to a scratch",
            "worktree of /repo (`M4SIM_REPO`), the check of its property runs against it, the worktree is removed. `caught` = the check printed",
            "`VIOLATION property=Cxx` and its minimised replay reproduced in a fresh process; `silent` = exit 0. Mutants named `_r*` are reverts",
-           "of `fix:` commits (the defects were real); mutants named `neutral` (and three that turned out equivalent, see DESIGN.md",
-           "section 10, item 15) do not break the property and must leave the check silent.\n",
+           "of `fix:` commits (the defects were real); mutants named `neutral` (and those that turned out equivalent, see DESIGN.md",
+           "section 10, items 15 and 21) do not break the property and must leave the check silent.\n",
            "| mutant | files | expected | quick tier | time | first signature |", "|---|---|---|---|---|---|"]
     for n in sorted(rows):
         _, outc, exp, ok, t, sig = rows[n]
@@ -32,6 +48,13 @@ def main():
     nc = sum(1 for r in rows.values() if r[2] == "caught" and r[1].startswith("caught")); ne = sum(1 for r in rows.values() if r[2] == "caught")
     ns = sum(1 for r in rows.values() if r[2] == "silent" and r[1] == "missed"); nes = sum(1 for r in rows.values() if r[2] == "silent")
     out.append("\n%d of %d property-breaking mutants caught by the quick tier; %d of %d neutral/equivalent mutants leave the check silent.\n" % (nc, ne, ns, nes))
+    for e in extra:
+        label, path = e.split("=", 1)
+        r2 = parse(path)
+        c2 = sum(1 for r in r2.values() if r[2] == "caught" and r[1].startswith("caught")); e2 = sum(1 for r in r2.values() if r[2] == "caught")
+        s2 = sum(1 for r in r2.values() if r[2] == "silent" and r[1] == "missed"); es2 = sum(1 for r in r2.values() if r[2] == "silent")
+        bad = [n for n, r in sorted(r2.items()) if r[3] != "OK"]
+        out.append("Same campaign with %s: %d of %d caught, %d of %d silent%s.\n" % (label, c2, e2, s2, es2, (" - not as expected: " + ", ".join(bad)) if bad else ""))
     out.append("History of misses (each led to a stronger generator or workload, never to a looser oracle): `C12_m3` needed the recursive PLE regime in the quick tier")
     out.append("(dimensions steered above the smallest L3/8); `C10_m1` needed more than 512 columns (wide rank-deficient shapes added); `C11_r2` needed the")
     out.append("write-fault plane of the `fs` engine inside `./check C11`; `C10_m2` and `C11_r1` were first reported under the neighbouring property")
@@ -56,6 +79,12 @@ def main():
         out.append("| %s | %s | %s | %s | %s |" % (os.path.basename(d), m.get('property'), cl(m.get('summary')), cl(m.get('needs')), cl(m.get('check_result'))))
     out.append("\n%d of %d caught by the quick tier of the property's check at the final state; %d of them were missed by the first version of the check "
                "(each miss is described in its row and in DESIGN.md section 14).\n" % (total, total, missed_first))
+    for e in seedlogs:
+        label, path = e.split("=", 1)
+        res = re.findall(r'^(C\d\d[a-z])\s+check=(\S+)\s+tier=(\S+)\s+(\S+)', open(path).read(), re.M)
+        ok = sum(1 for r in res if r[3] == "caught")
+        bad = [r[0] + ":" + r[3] for r in res if r[3] != "caught"]
+        out.append("All seeded changes re-run with %s: %d of %d caught%s.\n" % (label, ok, len(res), (" - not caught: " + ", ".join(bad)) if bad else ""))
     out.append("## Controls run on every invocation\n")
     out.append("* C15: the default (non-thread-safe) build under the thread workload must be flagged by the access monitor (32 control runs per invocation; a control that completes unflagged is exit 2).")
     out.append("* C16: the simulated runtime with critical sections turned into no-ops must be flagged (32 control runs per invocation).")
